@@ -480,7 +480,7 @@ func genIDCase(t *rapid.T) IDCase {
 
 func TestIdentities(t *testing.T) {
 	pbt.Run(t, pbt.Sub[IDCase]{
-		Name: "identities", Quick: 200000, Thorough: 2500000,
+		Name: "identities", Quick: 200000, Thorough: 12000000,
 		Gen:   genIDCase,
 		Check: checkID,
 		EnumDesc: "data/standard classification: one-output transactions whose locking script is empty, each of the 256 one-byte scripts, and each of the 65536 two-byte prefixes followed by 3 payload bytes (quick: every 2-byte prefix with first byte in {00,6a,4c,51,ff} or second byte 6a, plus all shorter scripts)",
@@ -685,7 +685,7 @@ func genSignCase(t *rapid.T) SignCase {
 
 func TestSignedUpperBound(t *testing.T) {
 	pbt.Run(t, pbt.Sub[SignCase]{
-		Name: "signed", Quick: 10000, Thorough: 150000,
+		Name: "signed", Quick: 10000, Thorough: 400000,
 		Gen:   genSignCase,
 		Check: checkSign,
 	})
